@@ -3,6 +3,8 @@ package engine
 import (
 	"bytes"
 	"fmt"
+
+	baskettypes "github.com/regen-network/regen-ledger/x/ecocredit/v3/basket/types/v1"
 )
 
 // C10 — determinism, restarts, no trace of failure.
@@ -16,6 +18,23 @@ func (c *C10) ID() string    { return "C10" }
 func (c *C10) WantRaw() bool { return true }
 
 func (c *C10) AfterTx(w *World, t *TxCtx) {
+	if t.Res.OK {
+		for _, m := range t.Msgs {
+			if tk, ok := m.(*baskettypes.MsgTake); ok {
+				if bk := t.Pre.BasketByDenom(tk.BasketDenom); bk != nil {
+					seen := map[string]int{}
+					for _, bb := range basketBalsOf(t.Pre, bk.Id) {
+						seen[tsS(bb.BatchStartDate)]++
+					}
+					for _, n := range seen {
+						if n >= 2 {
+							w.Probe("take_from_basket_with_tied_start_dates")
+						}
+					}
+				}
+			}
+		}
+	}
 	if t.Res.Delivered && !t.Res.OK {
 		c.failed++
 		// R5: a failed message leaves no trace in state (raw bytes of every store)
